@@ -215,6 +215,10 @@ Section Abstract.
     f_equal. apply IH. auto.
   Qed.
 
+  Lemma sched_preserves_sorted st out st' :
+    sched cmp st out st' -> Forall sorted st -> Forall sorted st'.
+  Proof. induction 1; intros Hs; [exact Hs|]. apply IHsched. eapply Forall_sorted_upd; eauto. Qed.
+
   (** every prefix of a run of the scheduler is sorted, below what is left,
       a permutation, and keeps each input's order *)
   Theorem sched_correct st out st' :
